@@ -102,7 +102,7 @@ def duration_to_timedelta(duration: str | None) -> timedelta:
         raise ValueError(f'Duration does not start with "P": {duration}')
     duration = duration[1:]
     res = timedelta()
-    _re = re.compile(r"^(\d+?)([WDHMS])(.*)")
+    _re = re.compile(r"^(\d+?)([WDHMS])(.*)", re.DOTALL)
     # 'M' means month until we see a 'T', then it means minutes
     time_section = False
     while duration:
